@@ -6,6 +6,7 @@ import (
 	"os"
 
 	"verif/vs/c03"
+	"verif/vs/c04"
 	"verif/vs/c06"
 	"verif/vs/c07"
 	"verif/vs/c17"
@@ -14,6 +15,7 @@ import (
 
 var checks = map[string]*run.Check{
 	"C03": c03.Check,
+	"C04": c04.Check,
 	"C06": c06.Check,
 	"C07": c07.Check,
 	"C17": c17.Check,
